@@ -1,1 +1,759 @@
-fn main(){}
+//! OS engine (DESIGN.md 4.4) – decides C17: the real `zeep` binary on a simulated OS boundary.
+//!
+//! Real code: the zeep binary built from the working tree (clap, std, zeep-lib). Simulated: libverifsim.so
+//! (entropy, directory order, syscall faults, trace). One case = one tape; a case is run under the reference
+//! spelling (absolute path) and under the tape-chosen spelling.
+
+use simkernel::cli::{self, CliRun, FaultAction, FaultSpec, PlanSpec, Scratch};
+use simkernel::inputs::{extra_sibling, input_sets, InputSet};
+use simkernel::serde_json::{json, Value};
+use simkernel::{Chooser, Report, Rng, Violation};
+use std::collections::{BTreeMap, HashMap, HashSet};
+use std::path::{Path, PathBuf};
+use std::sync::atomic::{AtomicUsize, Ordering};
+use std::sync::Mutex;
+use zeep_lib::reader::{WriteXml, XmlReader};
+use zeep_lib::utils::read_input_file_and_xsd_files_at_path;
+
+const PROPERTY: &str = "C17";
+const ENGINE: &str = "os";
+
+const SPELLINGS: [&str; 6] = ["absolute", "relative-with-dir", "dot-slash", "bare-name", "dotdot-dir", "double-slash"];
+const OUTPUTS: [&str; 4] = ["default", "-o absolute same dir", "-o relative", "-o absolute other dir"];
+const PRE: [&str; 3] = ["absent", "shorter", "longer"];
+
+/// (symbol, class, max index explored in seeded mode, actions)
+fn targets() -> Vec<(&'static str, &'static str, u64, Vec<FaultAction>)> {
+    use FaultAction::{Errno as E, Short as S};
+    vec![
+        ("open", "input", 1, vec![E(2), E(13), E(24), E(5), E(4)]),
+        ("open", "sibling", 4, vec![E(2), E(13), E(24), E(5), E(4)]),
+        ("open", "output", 1, vec![E(13), E(30), E(28), E(21), E(4)]),
+        ("read", "input", 3, vec![E(5), E(4), S(1), S(100)]),
+        ("read", "sibling", 8, vec![E(5), E(4), S(1), S(100)]),
+        ("write", "output", 700, vec![E(28), E(5), E(122), E(27), E(4), S(1), S(7)]),
+        ("close", "output", 1, vec![E(5)]),
+        ("close", "input", 1, vec![E(5)]),
+        ("opendir", "dir", 1, vec![E(13), E(20), E(24)]),
+        ("readdir", "dir", 9, vec![E(5), E(13)]),
+        ("stat", "input", 3, vec![E(13), E(5)]),
+        ("stat", "sibling", 8, vec![E(13), E(5)]),
+        ("fstat", "input", 1, vec![E(5)]),
+        ("fstat", "sibling", 4, vec![E(5)]),
+    ]
+}
+
+#[derive(Clone, Debug)]
+struct Case {
+    input: usize,
+    spelling: u64,
+    output: u64,
+    pre: u64,
+    extra: u64,
+    longflags: bool,
+    entropy: u64,
+    dirperm: u64,
+    fault: Option<FaultSpec>,
+}
+
+fn decode_case(ch: &mut Chooser, nsets: usize) -> Case {
+    let input = ch.choose("input", nsets as u64) as usize;
+    let spelling = ch.choose("spelling", 6);
+    let output = ch.choose("output", 4);
+    let pre = ch.choose("preexisting", 3);
+    let extra = ch.choose("extra_sibling", 4);
+    let longflags = ch.choose("long_flags", 2) == 1;
+    let entropy = ch.choose("entropy", u64::MAX);
+    let dirperm = ch.choose("dirperm", u64::MAX);
+    let fault = if ch.choose("faults", 2) == 1 {
+        let t = targets();
+        let ti = ch.choose("fault_target", t.len() as u64) as usize;
+        let idx = ch.choose("fault_index", t[ti].2.max(1));
+        let ai = ch.choose("fault_action", t[ti].3.len() as u64) as usize;
+        Some(FaultSpec { sym: t[ti].0, cls: t[ti].1, idx, action: t[ti].3[ai].clone() })
+    } else {
+        None
+    };
+    Case { input, spelling, output, pre, extra, longflags, entropy, dirperm, fault }
+}
+
+fn encode_case(c: &Case) -> Vec<u64> {
+    let mut t = vec![c.input as u64, c.spelling, c.output, c.pre, c.extra, u64::from(c.longflags), c.entropy, c.dirperm];
+    if let Some(f) = &c.fault {
+        let ts = targets();
+        let ti = ts.iter().position(|x| x.0 == f.sym && x.1 == f.cls).unwrap_or(0);
+        let ai = ts[ti].3.iter().position(|a| *a == f.action).unwrap_or(0);
+        t.extend([1, ti as u64, f.idx, ai as u64]);
+    }
+    t
+}
+
+// ------------------------------------------------------------------------------------------------
+// reference: what the library produces for the same file set
+
+#[derive(Clone, Debug, PartialEq)]
+enum Expected {
+    Bytes(Vec<u8>),
+    Fails(String),
+    Unstable,
+}
+
+fn lib_run(dir: &Path, start: &str, entropy: u64) -> Result<Vec<u8>, String> {
+    let p = dir.join(start);
+    std::thread::scope(|s| {
+        s.spawn(move || {
+            simkernel::shim::thread_entropy(entropy, 0x11b);
+            let r = simkernel::panics::catch(|| -> Result<Vec<u8>, String> {
+                let files = read_input_file_and_xsd_files_at_path(&p).map_err(|e| format!("{e}"))?;
+                let doc = XmlReader::read_xml(&files).map_err(|e| format!("{e}"))?;
+                let mut out = Vec::new();
+                doc.write_xml(&mut out).map_err(|e| format!("{e}"))?;
+                Ok(out)
+            });
+            match r {
+                Ok(x) => x,
+                Err((m, l)) => Err(format!("library panicked: {m} at {l}")),
+            }
+        })
+        .join()
+        .unwrap_or_else(|_| Err("thread".into()))
+    })
+}
+
+fn materialise(dir: &Path, set: &InputSet, extra: u64) {
+    let _ = std::fs::create_dir_all(dir);
+    for (n, b) in &set.files {
+        let _ = std::fs::write(dir.join(n), b);
+    }
+    if let Some((n, b)) = extra_sibling(extra) {
+        let _ = std::fs::write(dir.join(n), b);
+    }
+}
+
+static EXPECT_CACHE: Mutex<Option<HashMap<(usize, u64), Expected>>> = Mutex::new(None);
+
+fn expected_for(sets: &[InputSet], input: usize, extra: u64) -> Expected {
+    if let Some(e) = EXPECT_CACHE.lock().unwrap().get_or_insert_with(HashMap::new).get(&(input, extra)) {
+        return e.clone();
+    }
+    let sc = Scratch::new("libref");
+    let dir = sc.path.join("w");
+    materialise(&dir, &sets[input], extra);
+    let runs: Vec<Result<Vec<u8>, String>> = [1u64, 0x9e37_79b9, 0xdead_beef_0bad_cafe, 77].iter().map(|e| lib_run(&dir, &sets[input].start, *e)).collect();
+    let e = if runs.iter().all(|r| *r == runs[0]) {
+        match &runs[0] {
+            Ok(b) => Expected::Bytes(b.clone()),
+            Err(t) => Expected::Fails(t.clone()),
+        }
+    } else {
+        Expected::Unstable
+    };
+    EXPECT_CACHE.lock().unwrap().get_or_insert_with(HashMap::new).insert((input, extra), e.clone());
+    e
+}
+
+// ------------------------------------------------------------------------------------------------
+// one run of the binary
+
+#[derive(Clone, Debug)]
+struct RunObs {
+    cli: CliRun,
+    out_path_rel: String,
+    out_after: Option<Vec<u8>>,
+    pre_bytes: Option<Vec<u8>>,
+    stray_changes: Vec<String>,
+    args: Vec<String>,
+    cwd_rel: String,
+}
+
+fn snapshot(root: &Path) -> BTreeMap<String, u64> {
+    let mut m = BTreeMap::new();
+    let mut stack = vec![root.to_path_buf()];
+    while let Some(d) = stack.pop() {
+        if let Ok(rd) = std::fs::read_dir(&d) {
+            for e in rd.flatten() {
+                let p = e.path();
+                if p.is_dir() {
+                    stack.push(p);
+                } else if let Ok(b) = std::fs::read(&p) {
+                    m.insert(p.strip_prefix(root).unwrap_or(&p).to_string_lossy().to_string(), simkernel::hash_bytes(&b));
+                }
+            }
+        }
+    }
+    m
+}
+
+fn sentinel(len: usize) -> Vec<u8> {
+    b"// OLD-OUTPUT-SENTINEL keep me\n".iter().cycle().take(len).copied().collect()
+}
+
+fn run_once(sets: &[InputSet], c: &Case, spelling: u64, expected: &Expected) -> RunObs {
+    let set = &sets[c.input];
+    let sc = Scratch::new("os");
+    let top = sc.path.clone();
+    let w = top.join("w");
+    let outdir = top.join("outdir");
+    materialise(&w, set, c.extra);
+    let _ = std::fs::create_dir_all(&outdir);
+    let start = &set.start;
+    let (cwd, spelled): (PathBuf, String) = match spelling {
+        0 => (top.clone(), w.join(start).to_string_lossy().to_string()),
+        1 => (top.clone(), format!("w/{start}")),
+        2 => (w.clone(), format!("./{start}")),
+        3 => (w.clone(), start.clone()),
+        4 => (w.clone(), format!("../w/{start}")),
+        _ => (top.clone(), format!("w//{start}")),
+    };
+    let stem_rs = Path::new(start).with_extension("rs").to_string_lossy().to_string();
+    let (out_abs, out_arg): (PathBuf, Option<String>) = match c.output {
+        0 => (w.join(&stem_rs), None),
+        1 => (w.join("out_abs.rs"), Some(w.join("out_abs.rs").to_string_lossy().to_string())),
+        2 => (cwd.join("rel_out.rs"), Some("rel_out.rs".to_string())),
+        _ => (outdir.join("o.rs"), Some(outdir.join("o.rs").to_string_lossy().to_string())),
+    };
+    let pre_bytes = match c.pre {
+        0 => None,
+        1 => Some(sentinel(64)),
+        _ => {
+            let n = match expected {
+                Expected::Bytes(b) => b.len() + 4096,
+                _ => 200_000,
+            };
+            Some(sentinel(n))
+        }
+    };
+    if let Some(b) = &pre_bytes {
+        let _ = std::fs::write(&out_abs, b);
+    }
+    let mut args = vec![if c.longflags { "--input".to_string() } else { "-i".to_string() }, spelled];
+    if let Some(o) = out_arg {
+        args.push(if c.longflags { "--output".to_string() } else { "-o".to_string() });
+        args.push(o);
+    }
+    let before = snapshot(&top);
+    let plan = PlanSpec {
+        root: top.clone(),
+        input: w.join(start),
+        output: out_abs.clone(),
+        dir: w.clone(),
+        entropy: (c.entropy, 0x05),
+        dirperm: c.dirperm,
+        dirorder: vec![],
+        faults: c.fault.iter().cloned().collect(),
+    };
+    let run = cli::run_zeep(&top, &cwd, &args, &plan, "r");
+    let out_after = std::fs::read(&out_abs).ok();
+    let after = snapshot(&top);
+    let out_rel = out_abs.strip_prefix(&top).unwrap_or(&out_abs).to_string_lossy().to_string();
+    let mut stray = Vec::new();
+    for (k, v) in &after {
+        if k == &out_rel || k.starts_with("plan-") || k.starts_with("trace-") {
+            continue;
+        }
+        if before.get(k) != Some(v) {
+            stray.push(k.clone());
+        }
+    }
+    for k in before.keys() {
+        if !after.contains_key(k) && k != &out_rel && !k.starts_with("plan-") && !k.starts_with("trace-") {
+            stray.push(format!("deleted:{k}"));
+        }
+    }
+    RunObs {
+        cli: run,
+        out_path_rel: out_rel,
+        out_after,
+        pre_bytes,
+        stray_changes: stray,
+        args: args.iter().map(|a| a.replace(&*top.to_string_lossy(), "<TOP>")).collect(),
+        cwd_rel: cwd.strip_prefix(&top).map_or("<TOP>".into(), |p| format!("<TOP>/{}", p.display())),
+    }
+}
+
+// ------------------------------------------------------------------------------------------------
+// oracle O1–O4
+
+#[derive(Clone, Debug)]
+struct Finding {
+    class: String,
+    key: String,
+    detail: String,
+}
+
+fn fault_tag(c: &Case, r: &RunObs) -> String {
+    match &c.fault {
+        Some(f) if !r.cli.injected().is_empty() => format!("{}({}):{}", f.sym, f.cls, match &f.action {
+            FaultAction::Errno(e) => cli::errno_name(*e).to_string(),
+            FaultAction::Short(_) => "short".to_string(),
+        }),
+        _ => "none".to_string(),
+    }
+}
+
+fn judge_run(sets: &[InputSet], c: &Case, spelling: u64, r: &RunObs, expected: &Expected) -> Vec<Finding> {
+    let mut f = Vec::new();
+    let set = &sets[c.input];
+    let sp = SPELLINGS[spelling as usize];
+    let fired = !r.cli.injected().is_empty();
+    let stage = set.stage.unwrap_or("none");
+    if r.cli.timed_out {
+        f.push(Finding { class: "hang".into(), key: format!("hang:input={}", set.name), detail: "the binary did not exit".into() });
+        return f;
+    }
+    if r.cli.success() {
+        // O1 + O3
+        match (&r.out_after, expected) {
+            (None, _) => f.push(Finding {
+                class: "output-missing".into(),
+                key: format!("output-missing:output={}", OUTPUTS[c.output as usize]),
+                detail: format!("exit 0 but no file at {} (spelling {sp})", r.out_path_rel),
+            }),
+            // A fault that makes `is_file()` answer false hides that sibling from the tool: the effective file set is
+            // then not the one the reference was computed for, so "the library fails on this input" says nothing.
+            (Some(_), Expected::Fails(_)) if fired && c.fault.as_ref().is_some_and(|x| x.sym == "stat" && x.cls == "sibling") => {}
+            (Some(_), Expected::Fails(t)) => f.push(Finding {
+                class: "false-success".into(),
+                key: format!("false-success:stage={stage}"),
+                detail: format!("exit 0 although the library fails on this input with: {t}"),
+            }),
+            (Some(b), Expected::Bytes(e)) if b != e => {
+                let stale = b.len() > e.len() && b.starts_with(e);
+                let class = if stale { "stale-tail" } else if fired { "wrong-bytes-after-fault" } else { "wrong-bytes" };
+                f.push(Finding {
+                    class: class.into(),
+                    key: if fired { format!("{class}:fault={}", fault_tag(c, r)) } else { format!("{class}:pre={}", PRE[c.pre as usize]) },
+                    detail: format!("exit 0 but the output ({} bytes) differs from the library's {} bytes (input {}, spelling {sp}, pre-existing {})", b.len(), e.len(), set.name, PRE[c.pre as usize]),
+                });
+            }
+            _ => {}
+        }
+    } else {
+        // failed run
+        if !fired && matches!(expected, Expected::Bytes(_)) {
+            f.push(Finding {
+                class: "spurious-failure".into(),
+                key: format!("spurious-failure:spelling={sp}"),
+                detail: format!("exit {:?} without any injected fault although the library generates this input ({}); stderr: {}", r.cli.exit_code, set.name, r.cli.stderr.replace('\n', " ")),
+            });
+        }
+        // O4: the old output survives every failure that is not a failure of writing the output itself
+        if let Some(pre) = &r.pre_bytes {
+            if !r.cli.output_write_fault_fired() && r.out_after.as_ref() != Some(pre) {
+                let what = if set.stage.is_some() || !fired { format!("stage={stage}") } else { format!("fault={}", fault_tag(c, r)) };
+                f.push(Finding {
+                    class: "old-output-clobbered".into(),
+                    key: format!("old-output-clobbered:{what}"),
+                    detail: format!("exit {:?} and the pre-existing output ({} bytes) is now {:?} bytes (input {}, spelling {sp})", r.cli.exit_code, pre.len(), r.out_after.as_ref().map(Vec::len), set.name),
+                });
+            }
+        }
+    }
+    f
+}
+
+fn fired_signature(r: &RunObs) -> Vec<String> {
+    r.cli
+        .injected()
+        .iter()
+        .map(|l| {
+            let w: Vec<&str> = l.split_whitespace().collect();
+            let base = w.iter().find_map(|t| t.strip_prefix("path=")).map(|p| p.rsplit('/').next().unwrap_or("").to_string()).unwrap_or_default();
+            format!("{} {} {} {}", w.get(1).unwrap_or(&""), w.get(2).unwrap_or(&""), w.get(3).unwrap_or(&""), base)
+        })
+        .collect()
+}
+
+struct CaseResult {
+    findings: Vec<Finding>,
+    runs: Vec<(u64, RunObs)>,
+    expected: Expected,
+}
+
+fn run_case(sets: &[InputSet], c: &Case) -> CaseResult {
+    let expected = expected_for(sets, c.input, c.extra);
+    let mut findings = Vec::new();
+    let r0 = run_once(sets, c, 0, &expected);
+    let f0 = judge_run(sets, c, 0, &r0, &expected);
+    let mut runs = vec![(0u64, r0)];
+    findings.extend(f0.clone());
+    if c.spelling != 0 {
+        let r1 = run_once(sets, c, c.spelling, &expected);
+        let f1 = judge_run(sets, c, c.spelling, &r1, &expected);
+        // O2: same outcome and bytes for every spelling
+        // (under a fault plan the comparison is meaningful only if the fault landed on the same call of the same file:
+        // spellings may legitimately shift call indices, e.g. a relative -o file living in the scanned directory)
+        if f0.is_empty() && f1.is_empty() && fired_signature(&runs[0].1) == fired_signature(&r1) {
+            let a = &runs[0].1;
+            let same = a.cli.success() == r1.cli.success() && (!a.cli.success() || a.out_after == r1.out_after);
+            if !same {
+                findings.push(Finding {
+                    class: "spelling-differs".into(),
+                    key: format!("spelling-differs:spelling={}", SPELLINGS[c.spelling as usize]),
+                    detail: format!("absolute path: exit {:?}; {}: exit {:?}; outputs equal: {}", a.cli.exit_code, SPELLINGS[c.spelling as usize], r1.cli.exit_code, a.out_after == r1.out_after),
+                });
+            }
+        }
+        findings.extend(f1);
+        runs.push((c.spelling, r1));
+    }
+    CaseResult { findings, runs, expected }
+}
+
+fn case_json(sets: &[InputSet], c: &Case) -> Value {
+    json!({
+        "input_set": sets[c.input].name, "stage": sets[c.input].stage, "start_file": sets[c.input].start,
+        "files": sets[c.input].files.iter().map(|(n, b)| json!({"name": n, "bytes": b.len(), "hash": format!("{:016x}", simkernel::hash_bytes(b))})).collect::<Vec<_>>(),
+        "spelling": SPELLINGS[c.spelling as usize], "output": OUTPUTS[c.output as usize], "preexisting_output": PRE[c.pre as usize],
+        "extra_sibling": extra_sibling(c.extra).map(|e| e.0), "long_flags": c.longflags,
+        "entropy": format!("{:x}", c.entropy), "dirperm": c.dirperm,
+        "fault": c.fault.as_ref().map(FaultSpec::describe),
+    })
+}
+
+fn run_json(spelling: u64, r: &RunObs) -> Value {
+    let tr: Vec<&String> = r.cli.trace.iter().filter(|l| !l.contains(" write output") || l.contains("!inj")).take(60).collect();
+    json!({
+        "spelling": SPELLINGS[spelling as usize], "cwd": r.cwd_rel, "args": r.args, "exit_code": r.cli.exit_code, "signal": r.cli.killed_by_signal,
+        "stderr": r.cli.stderr, "output_path": r.out_path_rel, "output_len": r.out_after.as_ref().map(Vec::len),
+        "output_hash": r.out_after.as_ref().map(|b| format!("{:016x}", simkernel::hash_bytes(b))),
+        "preexisting_len": r.pre_bytes.as_ref().map(Vec::len), "stray_changes": r.stray_changes,
+        "injected": r.cli.injected(), "trace_without_plain_output_writes": tr,
+    })
+}
+
+// ------------------------------------------------------------------------------------------------
+// batches
+
+#[derive(Default)]
+struct Stats {
+    cases: u64,
+    runs: u64,
+    fired: BTreeMap<String, u64>,
+    probes: BTreeMap<String, u64>,
+    signatures: HashSet<u64>,
+    found: Vec<(Vec<u64>, Finding)>,
+    samples: Vec<Value>,
+    digest: u64,
+}
+
+fn bump(m: &mut BTreeMap<String, u64>, k: &str) {
+    *m.entry(k.to_string()).or_insert(0) += 1;
+}
+
+fn run_batch(sets: &[InputSet], tapes: &[Vec<u64>]) -> Stats {
+    let next = AtomicUsize::new(0);
+    let out = Mutex::new(Stats::default());
+    std::thread::scope(|s| {
+        for _ in 0..simkernel::workers() {
+            s.spawn(|| {
+                let mut st = Stats::default();
+                loop {
+                    let i = next.fetch_add(1, Ordering::Relaxed);
+                    if i >= tapes.len() {
+                        break;
+                    }
+                    let mut ch = Chooser::replay(tapes[i].clone());
+                    let c = decode_case(&mut ch, sets.len());
+                    let res = run_case(sets, &c);
+                    st.cases += 1;
+                    st.runs += res.runs.len() as u64;
+                    let mut sig = 0u64;
+                    for v in &tapes[i] {
+                        sig = sig.rotate_left(11) ^ v.wrapping_mul(0x9e37_79b9_7f4a_7c15);
+                    }
+                    let nontrivial = c.fault.is_some() || c.spelling != 0 || c.pre != 0 || c.output != 0 || sets[c.input].stage.is_some();
+                    if nontrivial {
+                        st.signatures.insert(sig);
+                    }
+                    let mut d = i as u64;
+                    for (sp, r) in &res.runs {
+                        d = d.rotate_left(7) ^ sp ^ (r.cli.exit_code.unwrap_or(-1) as u64) << 8 ^ r.out_after.as_ref().map_or(1, |b| simkernel::hash_bytes(b));
+                        for l in &r.cli.trace {
+                            d = d.rotate_left(3) ^ simkernel::fnv(l);
+                        }
+                        for l in r.cli.injected() {
+                            let w: Vec<&str> = l.split_whitespace().collect();
+                            if w.len() > 2 {
+                                bump(&mut st.fired, &format!("{}({})", w[1], w[2]));
+                            }
+                            if l.contains("errno 4 ") {
+                                bump(&mut st.fired, "EINTR");
+                            } else if l.contains("short") {
+                                bump(&mut st.fired, "short-transfer");
+                            } else {
+                                bump(&mut st.fired, "hard-errno");
+                            }
+                        }
+                        bump(&mut st.probes, if r.cli.success() { "runs_exit_zero" } else { "runs_exit_nonzero" });
+                        if r.cli.killed_by_signal {
+                            bump(&mut st.probes, "runs_killed_by_signal");
+                            if st.samples.len() < 8 && !st.samples.iter().any(|s| s.get("killed_by_signal").is_some()) {
+                                st.samples.push(json!({"killed_by_signal": true, "tape": ch.tape_json(), "case": case_json(sets, &c), "run": run_json(*sp, r)}));
+                            }
+                        }
+                        if !r.stray_changes.is_empty() {
+                            bump(&mut st.probes, "runs_with_stray_file_changes");
+                        }
+                        if !r.cli.success() && r.pre_bytes.is_some() {
+                            if r.cli.output_write_fault_fired() {
+                                bump(&mut st.probes, if r.out_after == r.pre_bytes { "old_output_survives_write_fault" } else { "old_output_lost_on_write_fault(not gated)" });
+                            } else if r.out_after == r.pre_bytes {
+                                bump(&mut st.probes, "failed_runs_old_output_intact");
+                            }
+                        }
+                        if r.cli.success() && !r.cli.injected().is_empty() {
+                            bump(&mut st.probes, "runs_succeeding_despite_injected_fault");
+                        }
+                        if r.cli.success() && c.pre == 2 {
+                            bump(&mut st.probes, "successful_runs_over_longer_old_file");
+                        }
+                    }
+                    if res.expected == Expected::Unstable {
+                        bump(&mut st.probes, "library_reference_unstable");
+                    }
+                    let mut t = d;
+                    st.digest = st.digest.wrapping_add(simkernel::splitmix64(&mut t));
+                    if i % (tapes.len() / 6 + 1) == 0 && st.samples.len() < 6 {
+                        st.samples.push(json!({"tape": ch.tape_json(), "case": case_json(sets, &c), "runs": res.runs.iter().map(|(sp, r)| json!({"spelling": SPELLINGS[*sp as usize], "exit": r.cli.exit_code, "injected": r.cli.injected(), "output_len": r.out_after.as_ref().map(Vec::len)})).collect::<Vec<_>>() }));
+                    }
+                    for f in res.findings {
+                        if st.found.len() < 2000 {
+                            st.found.push((tapes[i].clone(), f));
+                        }
+                    }
+                }
+                let mut g = out.lock().unwrap();
+                g.cases += st.cases;
+                g.runs += st.runs;
+                for (k, v) in st.fired {
+                    *g.fired.entry(k).or_insert(0) += v;
+                }
+                for (k, v) in st.probes {
+                    *g.probes.entry(k).or_insert(0) += v;
+                }
+                g.signatures.extend(st.signatures);
+                g.found.extend(st.found);
+                g.samples.extend(st.samples);
+                g.samples.truncate(10);
+                g.digest = g.digest.wrapping_add(st.digest);
+            });
+        }
+    });
+    out.into_inner().unwrap()
+}
+
+fn build_tapes(sets: &[InputSet], tier: &str, seed: u64) -> (Vec<Vec<u64>>, Value) {
+    let thorough = tier == "thorough";
+    let mut tapes = Vec::new();
+    // (1) configuration product without faults
+    let extras: Vec<u64> = if thorough { vec![0, 1, 2, 3] } else { vec![0, 2] };
+    let mut n_cfg = 0u64;
+    for input in 0..sets.len() {
+        for spelling in 1..6u64 {
+            for output in 0..4u64 {
+                for pre in 0..3u64 {
+                    for extra in &extras {
+                        // quick: thin out by a fixed rule; thorough: everything
+                        if !thorough && (input as u64 + spelling + output + pre + *extra) % 3 != 0 {
+                            continue;
+                        }
+                        let c = Case { input, spelling, output, pre, extra: *extra, longflags: (spelling + output) % 2 == 1, entropy: 0, dirperm: if *extra == 2 { 7 } else { 0 }, fault: None };
+                        tapes.push(encode_case(&c));
+                        n_cfg += 1;
+                    }
+                }
+            }
+        }
+    }
+    // (2) a fault at every intercepted call index of a few small scenarios
+    let idx_of = |name: &str| sets.iter().position(|s| s.name == name);
+    let mut scen = Vec::new();
+    if let Some(i) = idx_of("tempconverter") {
+        scen.push(Case { input: i, spelling: 2, output: 0, pre: 2, extra: 0, longflags: false, entropy: 0, dirperm: 0, fault: None });
+    }
+    if let Some(i) = idx_of("chain") {
+        scen.push(Case { input: i, spelling: 1, output: 2, pre: 1, extra: 1, longflags: true, entropy: 0, dirperm: 3, fault: None });
+    }
+    if thorough {
+        if let Some(i) = idx_of("hello") {
+            scen.push(Case { input: i, spelling: 4, output: 3, pre: 0, extra: 0, longflags: false, entropy: 0, dirperm: 0, fault: None });
+        }
+        if let Some(i) = idx_of("malformed-sibling") {
+            scen.push(Case { input: i, spelling: 5, output: 1, pre: 2, extra: 0, longflags: false, entropy: 0, dirperm: 0, fault: None });
+        }
+        if let Some(i) = idx_of("orders") {
+            scen.push(Case { input: i, spelling: 1, output: 0, pre: 2, extra: 3, longflags: false, entropy: 0, dirperm: 5, fault: None });
+        }
+    }
+    let mut enumerated = Vec::new();
+    for base in &scen {
+        let expected = expected_for(sets, base.input, base.extra);
+        let clean = run_once(sets, base, 0, &expected);
+        let mut n_faults = 0u64;
+        for (sym, cls, _, actions) in targets() {
+            let calls = clean.cli.count(sym, cls) as u64;
+            // one index past the last observed call too: the fault must simply not fire there
+            for idx in 0..calls {
+                // quick: every index for everything but plain output writes, which are thinned to every 3rd + the first 40
+                if !thorough && sym == "write" && idx > 40 && idx % 3 != 0 {
+                    continue;
+                }
+                for a in &actions {
+                    let mut c = base.clone();
+                    c.fault = Some(FaultSpec { sym, cls, idx, action: a.clone() });
+                    tapes.push(encode_case(&c));
+                    n_faults += 1;
+                }
+            }
+        }
+        enumerated.push(json!({"scenario": case_json(sets, base), "intercepted_calls": clean.cli.trace.len(), "fault_cases": n_faults}));
+    }
+    // (3) seeded mixes
+    let n_seeded = if thorough { 60_000 } else { 2_500 };
+    for r in 0..n_seeded {
+        let mut ch = Chooser::explore(Rng::derive(seed, "os-seeded", r));
+        let mut c = decode_case(&mut ch, sets.len());
+        // most seeded cases carry a fault (the product above covers the fault-free space)
+        if c.fault.is_none() && r % 4 != 0 {
+            let t = targets();
+            let ti = ch.choose("fault_target", t.len() as u64) as usize;
+            let idx = ch.choose("fault_index", t[ti].2.max(1));
+            let ai = ch.choose("fault_action", t[ti].3.len() as u64) as usize;
+            c.fault = Some(FaultSpec { sym: t[ti].0, cls: t[ti].1, idx, action: t[ti].3[ai].clone() });
+        }
+        tapes.push(encode_case(&c));
+    }
+    (tapes, json!({"configuration_product_cases": n_cfg, "configuration_dimensions": {"input_sets": sets.iter().map(|s| s.name.clone()).collect::<Vec<_>>(), "spellings": SPELLINGS, "outputs": OUTPUTS, "preexisting": PRE, "extra_siblings": extras}, "per_call_index_fault_enumeration": enumerated, "seeded_cases": n_seeded, "configuration_product_complete": thorough}))
+}
+
+fn main() {
+    let (tier, replay, _extra) = simkernel::parse_cli();
+    simkernel::panics::install_hook();
+    if !simkernel::shim::present() {
+        eprintln!("HARNESS-ERROR: libverifsim.so is not preloaded (run through /verif/check)");
+        std::process::exit(2);
+    }
+    if !cli::zeep_bin().is_file() {
+        eprintln!("HARNESS-ERROR: zeep binary not built at {}", cli::zeep_bin().display());
+        std::process::exit(2);
+    }
+    let sets = input_sets();
+
+    if let Some(path) = replay {
+        let v = match simkernel::load_replay(&path) {
+            Ok(v) => v,
+            Err(e) => {
+                eprintln!("HARNESS-ERROR: {e}");
+                std::process::exit(2);
+            }
+        };
+        let tape = simkernel::tape_values_from_json(&v["tape"]);
+        let mut ch = Chooser::replay(tape);
+        let c = decode_case(&mut ch, sets.len());
+        let res = run_case(&sets, &c);
+        for (sp, r) in &res.runs {
+            println!("REPLAY run {}", run_json(*sp, r));
+        }
+        let want_key = v["key"].as_str().unwrap_or("");
+        if let Some(f) = res.findings.iter().find(|f| f.key == want_key).or(res.findings.first()) {
+            println!("REPLAY property={PROPERTY} class={} key={} :: {}", f.class, f.key, f.detail);
+            println!("REPLAY-{}", if f.key == want_key { "REPRODUCED" } else { "DIFFERENT-VIOLATION" });
+            println!("VIOLATION property={PROPERTY} replay={}", path.display());
+            std::process::exit(1);
+        }
+        println!("REPLAY property={PROPERTY} no violation");
+        std::process::exit(0);
+    }
+
+    let mut report = Report::new(PROPERTY, ENGINE, &tier, "fault_enumeration");
+    if sets.len() < 8 {
+        report.harness_errors.push(format!("only {} input sets could be built", sets.len()));
+    }
+    let (tapes, product) = build_tapes(&sets, &tier, report.seed);
+    let stats = run_batch(&sets, &tapes);
+
+    // vacuity self-probes: the shim must have seen the binary's calls and injected faults must have fired
+    if stats.fired.is_empty() {
+        report.harness_errors.push("no injected fault fired in the whole batch: the shim is not in effect".into());
+    }
+    // determinism self-check: a slice twice, different worker count
+    let slice: Vec<Vec<u64>> = tapes.iter().step_by((tapes.len() / 600).max(1)).cloned().collect();
+    let a = run_batch(&sets, &slice);
+    std::env::set_var("VERIF_WORKERS", "5");
+    let b = run_batch(&sets, &slice);
+    std::env::remove_var("VERIF_WORKERS");
+    let mism = u64::from(a.digest != b.digest);
+    if mism != 0 {
+        report.harness_errors.push("determinism self-check failed: same tapes, different traces/outcomes".into());
+    }
+
+    // one violation per key: smallest tape, then shrink
+    let mut by_key: BTreeMap<String, (Vec<u64>, Finding)> = BTreeMap::new();
+    for (tape, f) in &stats.found {
+        let better = by_key.get(&f.key).is_none_or(|(t, _)| (tape.len(), tape.iter().map(|v| v.min(&1000)).sum::<u64>()) < (t.len(), t.iter().map(|v| v.min(&1000)).sum::<u64>()));
+        if better {
+            by_key.insert(f.key.clone(), (tape.clone(), f.clone()));
+        }
+    }
+    let mut violations = Vec::new();
+    for (key, (tape, f)) in &by_key {
+        let (min_tape, used) = simkernel::shrink_tape(tape, 60, |t| {
+            let mut ch = Chooser::replay(t.to_vec());
+            let c = decode_case(&mut ch, sets.len());
+            run_case(&sets, &c).findings.iter().any(|x| &x.key == key)
+        });
+        let mut ch = Chooser::replay(min_tape.clone());
+        let c = decode_case(&mut ch, sets.len());
+        let res = run_case(&sets, &c);
+        let fin = res.findings.iter().find(|x| &x.key == key).cloned().unwrap_or(f.clone());
+        violations.push(Violation {
+            property: PROPERTY.into(),
+            engine: ENGINE.into(),
+            class: fin.class.clone(),
+            key: key.clone(),
+            detail: format!("{} [{} failing cases share this key]", fin.detail, stats.found.iter().filter(|x| &x.1.key == key).count()),
+            scenario: case_json(&sets, &c),
+            tape: ch.tape_json(),
+            observations: json!({"runs": res.runs.iter().map(|(sp, r)| run_json(*sp, r)).collect::<Vec<_>>(), "library_reference": match &res.expected { Expected::Bytes(b) => json!({"ok_bytes": b.len(), "hash": format!("{:016x}", simkernel::hash_bytes(b))}), Expected::Fails(t) => json!({"err": t}), Expected::Unstable => json!("unstable across entropy (C12 territory): byte comparison skipped") }}),
+            trace: json!({"shrink_reexecutions": used}),
+        });
+    }
+    report.triage(violations);
+    let mut paths = Vec::new();
+    for (i, v) in report.violations.iter().enumerate() {
+        let p = report.write_replay(v, i);
+        let st = std::process::Command::new(std::env::current_exe().unwrap()).arg("--replay").arg(&p).output();
+        match st {
+            Ok(out) if out.status.code() == Some(1) && String::from_utf8_lossy(&out.stdout).contains("REPLAY-REPRODUCED") => {}
+            other => report.harness_errors.push(format!("replay of {} did not reproduce in a fresh process: {:?}", p.display(), other.map(|o| o.status))),
+        }
+        paths.push(p);
+    }
+
+    let coverage = json!({
+        "evaluations": stats.runs,
+        "cases": stats.cases,
+        "distinct_nontrivial": stats.signatures.len(),
+        "rule": "one evaluation = one execution of the real zeep binary in a fresh scratch tree under one plan (path spelling, cwd, output option, pre-existing output, extra sibling, entropy, directory order, at most one syscall fault); a case runs the absolute spelling and the tape-chosen spelling. Distinct = distinct case tapes; non-trivial = the case differs from the plain run (a fault, a non-absolute spelling, a pre-existing output, an explicit output or a failing input stage).",
+        "samples": stats.samples,
+        "exhaustive": true,
+        "exhaustive_note": "exhaustive for: a fault at every intercepted call index x every applicable errno/short action of the listed scenarios (quick thins plain output writes beyond index 40 to every 3rd), and (thorough) the full configuration product; the seeded mixes are samples",
+        "product": product,
+        "runs_per_hour": (stats.runs as f64 / report.start.elapsed().as_secs_f64().max(0.001) * 3600.0) as u64,
+        "seeds": [report.seed],
+        "faults_fired": stats.fired,
+        "probes": stats.probes,
+        "simulated_time_ms": "n/a: the binary reads no clock; order is the shim's global call sequence number",
+        "real_components": ["the zeep binary built from the working tree (main.rs, clap, env_logger, std, zeep-lib)", "zeep-lib in-process as the reference for expected bytes"],
+        "stub_components": ["OS boundary: libverifsim.so interposing open/read/write/writev/close/opendir/readdir/stat*/getrandom"],
+        "determinism_selfcheck": {"cases_repeated": slice.len(), "worker_counts": [simkernel::workers(), 5], "mismatches": mism},
+        "violating_cases_before_dedup": stats.found.len(),
+    });
+    report.write_evidence(coverage, &[
+        "the binary is dynamically linked against glibc and reaches the OS only through the interposed symbols (self-probe: injected faults fired)",
+        "failures of writing/closing the output file itself gate only 'no false success'; survival of the old output there is a probe (DESIGN.md 4.4)",
+        "expected bytes come from zeep-lib run in-process on the same files; when that reference is itself entropy-dependent the byte comparison is skipped (C12 territory)",
+    ]);
+    std::process::exit(report.finish(&paths));
+}
